@@ -197,7 +197,12 @@ LoadRes(d) == LoadFrom(RecsOf(d), {r.k : r \in RecsOf(d)})
 ByKey(R) == [k \in {r.k : r \in R} |-> CHOOSE r \in R : r.k = k]
 
 ----------------------------------------------------------------------------
-\* scheduling (manager.py:596-647, upload slots assumed free): what a management cycle picks
+\* scheduling (_get_queued_transfers / manage_transfers, upload slots assumed free): what a
+\* management cycle picks.  b = keys whose previous attempt is still in flight (an upload whose
+\* PeerTransferRequest the peer has not answered).  What a cycle does with a QUEUED upload whose
+\* task slot is still occupied - and with the other queued uploads of that user, whose turn depends
+\* on list order - is C06's subject, not C17's: those picks are left open.  A loaded transfer never
+\* has an attempt in flight, so for loaded transfers the rule is exact.
 Downs(m) == {k \in DOMAIN m : IsDown(k)}
 Ups(m) == {k \in DOMAIN m : ~IsDown(k)}
 EligDown(m) == {k \in Downs(m) : /\ ~m[k].rq
@@ -205,9 +210,13 @@ EligDown(m) == {k \in Downs(m) : /\ ~m[k].rq
                                     \/ m[k].st = "FAILED" /\ m[k].fr = "none"}
 BusyUsers(m) == {k[1] : k \in {x \in Ups(m) : m[x].st \in InProgress}}
 EligUp(m) == {k \in Ups(m) : m[k].st = "QUEUED" /\ k[1] \notin BusyUsers(m)}
-PickSets(m) ==
-  {EligDown(m) \cup U : U \in {X \in SUBSET EligUp(m) :
-        \A u \in {k[1] : k \in EligUp(m)} : Cardinality({k \in X : k[1] = u}) = 1}}
+OpenUsers(m, b) == {k[1] : k \in EligUp(m) \cap b}
+PickSets(m, b) ==
+  LET strict == {k \in EligUp(m) : k[1] \notin OpenUsers(m, b)}
+      open == {k \in EligUp(m) : k[1] \in OpenUsers(m, b)}
+  IN {EligDown(m) \cup U \cup L :
+        U \in {X \in SUBSET strict : \A u \in {k[1] : k \in strict} : Cardinality({k \in X : k[1] = u}) = 1},
+        L \in SUBSET open}
 \* a picked download is queued remotely (the peer acknowledged), a picked upload is initialised
 CycleEffect(m, P) ==
   [k \in DOMAIN m |-> IF k \notin P THEN m[k]
@@ -224,15 +233,16 @@ VARIABLES
   cycleReq,  \* a management cycle has been requested and not run yet
   wired,     \* keys whose transfer has the manager as state listener
   picked,    \* what the last cycle picked up
+  busy,      \* keys with an attempt (task) in flight that only a cancellation ends
   act,       \* kind of the last step: "Init" | "Other" | "Write" | "OldWrite" | "Restart" | "Cycle"
   nops, lives
 
-vars == <<mem, db, proc, lastW, started, cycleReq, wired, picked, act, nops, lives>>
+vars == <<mem, db, proc, lastW, started, cycleReq, wired, picked, busy, act, nops, lives>>
 
 Init ==
   /\ mem \in UNION {Mems(S) : S \in {X \in SUBSET Keys : Cardinality(X) <= MaxInit}}
   /\ db = EmptyDb /\ proc = "running" /\ lastW = Empty
-  /\ started = FALSE /\ cycleReq = (DOMAIN mem # {}) /\ wired = DOMAIN mem /\ picked = {}
+  /\ started = FALSE /\ cycleReq = (DOMAIN mem # {}) /\ wired = DOMAIN mem /\ picked = {} /\ busy = {}
   /\ act = "Init" /\ nops = 0 /\ lives = 0
 
 Running == proc = "running" /\ nops < MaxOps
@@ -248,7 +258,7 @@ AddTo(k, m2) ==
   /\ \A x \in DOMAIN mem : m2[x] = mem[x]
   /\ mem' = m2 /\ wired' = wired \cup {k} /\ cycleReq' = TRUE
   /\ act' = "Other" /\ Tick
-  /\ UNCHANGED <<db, proc, lastW, started, picked, lives>>
+  /\ UNCHANGED <<db, proc, lastW, started, picked, busy, lives>>
 Add(k) == Cardinality(DOMAIN mem) < MaxPresent /\ AddTo(k, mem @@ (k :> Virgin(k)))
 
 \* a state method (state.py); the manager is told when it is a listener (manager.py:1146-1149)
@@ -258,6 +268,7 @@ MutateTo(k, o, r2) ==
   /\ r2.k = k /\ r2.st = TS!Target(Base(o), DirName(k))
   /\ mem' = [mem EXCEPT ![k] = r2]
   /\ cycleReq' = (cycleReq \/ k \in wired)
+  /\ busy' = IF Base(o) \in {"abort", "pause"} THEN busy \ {k} ELSE busy    \* these cancel the tasks
   /\ act' = "Other" /\ Tick
   /\ UNCHANGED <<db, proc, lastW, started, wired, picked, lives>>
 Mutate(k, o) == k \in DOMAIN mem /\ MutateTo(k, o, Effect(mem[k], o))
@@ -268,14 +279,14 @@ SetDataTo(k, r2) ==
   /\ r2 # mem[k]
   /\ mem' = [mem EXCEPT ![k] = r2]
   /\ act' = "Other" /\ Tick
-  /\ UNCHANGED <<db, proc, lastW, started, cycleReq, wired, picked, lives>>
+  /\ UNCHANGED <<db, proc, lastW, started, cycleReq, wired, picked, busy, lives>>
 SetData(k, v) == k \in DOMAIN mem /\ mem[k].st \in InProgress /\ SetDataTo(k, Data(mem[k], v))
 
 \* manager.remove (manager.py:346-369)
 Remove(k) ==
   /\ Running /\ Free /\ k \in DOMAIN mem
   /\ mem' = Restrict(mem, DOMAIN mem \ {k})
-  /\ wired' = wired \ {k} /\ cycleReq' = TRUE
+  /\ wired' = wired \ {k} /\ cycleReq' = TRUE /\ busy' = busy \ {k}
   /\ act' = "Other" /\ Tick
   /\ UNCHANGED <<db, proc, lastW, started, picked, lives>>
 
@@ -284,9 +295,9 @@ Write ==
   /\ Running /\ Free
   /\ db' \in WriteRes(db, mem) /\ lastW' = mem
   /\ act' = "Write" /\ Tick
-  /\ UNCHANGED <<mem, proc, started, cycleReq, wired, picked, lives>>
+  /\ UNCHANGED <<mem, proc, started, cycleReq, wired, picked, busy, lives>>
 
-Dies == proc' = "dead" /\ mem' = Empty /\ started' = FALSE /\ cycleReq' = FALSE /\ wired' = {}
+Dies == proc' = "dead" /\ mem' = Empty /\ started' = FALSE /\ cycleReq' = FALSE /\ wired' = {} /\ busy' = {}
 
 \* client.stop(): tasks cancelled, then store_data(); m = the members at that moment
 StopWriteOf(m) ==
@@ -316,14 +327,14 @@ RestartTo(m2) ==
   /\ wired' = DOMAIN m2 /\ cycleReq' = (DOMAIN m2 # {})
   /\ picked' = {} /\ lives' = lives + 1
   /\ act' = "Restart" /\ Tick
-  /\ UNCHANGED <<db, lastW, started>>
+  /\ UNCHANGED <<db, lastW, started, busy>>
 Restart == proc = "dead" /\ \E m2 \in LoadRes(db) : RestartTo(m2)
 
 \* manager.start()
 StartMgr ==
   /\ Running /\ ~started
   /\ started' = TRUE /\ act' = "Other" /\ Tick
-  /\ UNCHANGED <<mem, db, proc, lastW, cycleReq, wired, picked, lives>>
+  /\ UNCHANGED <<mem, db, proc, lastW, cycleReq, wired, picked, busy, lives>>
 
 \* as in client.start(): right after load_data() (or first thing in a fresh client); a life in
 \* which start() is not called then stays without scheduling (keeps the model small)
@@ -334,9 +345,14 @@ CycleTo(P, m2) ==
   /\ Running /\ started /\ cycleReq
   /\ DOMAIN m2 = DOMAIN mem
   /\ mem' = m2 /\ picked' = P /\ cycleReq' = FALSE
+  /\ busy' = busy \cup {k \in P : ~IsDown(k)}      \* the peer does not answer: the attempt stays in flight
   /\ act' = "Cycle" /\ Tick
   /\ UNCHANGED <<db, proc, lastW, started, wired, lives>>
-Cycle == cycleReq /\ \E P \in PickSets(mem) : CycleTo(P, CycleEffect(mem, P))
+\* the code (manage_transfers) does not start a second attempt while one is in flight
+Cycle == cycleReq /\ \E P \in PickSets(mem, busy) :
+            /\ P \cap busy = {}
+            /\ \A k1, k2 \in P : (~IsDown(k1) /\ ~IsDown(k2) /\ k1[1] = k2[1]) => k1 = k2
+            /\ CycleTo(P, CycleEffect(mem, P))
 
 Next ==
   \/ \E k \in Keys : Add(k) \/ Remove(k)
@@ -355,6 +371,7 @@ TypeOK ==
   /\ \A k \in DOMAIN mem : mem[k].k = k /\ mem[k].st \in TS!States
   /\ \A r \in RecsOf(db) : r.st \in TS!States
   /\ proc = "dead" => mem = Empty
+  /\ busy \subseteq Ups(mem)
 
 \* the fields the statement says come back unchanged
 SameTransfer(a, b) ==
@@ -403,7 +420,7 @@ RepairIsLegal == [][RepairIsLegalA]_vars
 \* requested, and a cycle picks exactly what it would pick among fresh transfers in those states
 LoadedLikeFreshA ==
   /\ act' = "Restart" => wired' = DOMAIN mem' /\ (DOMAIN mem' # {} => cycleReq')
-  /\ act' = "Cycle" => picked' \in PickSets(mem)
+  /\ act' = "Cycle" => picked' \in PickSets(mem, busy)
 LoadedLikeFresh == [][LoadedLikeFreshA]_vars
 WiredAll == proc = "running" => wired = DOMAIN mem
 =============================================================================
